@@ -143,7 +143,9 @@ Definition scaling_statement : Prop :=
   (forall A B C D, g_cell_volume Rops (sc A) (sc B) (sc C) (sc D) = s * s * s * g_cell_volume Rops A B C D) /\
   (forall l, g_face_bary Rops (map sc l) = sc (g_face_bary Rops l)) /\
   (forall l, g_cell_bary Rops (map sc l) = sc (g_cell_bary Rops l)) /\
-  (forall l, g_barycenter Rops (map sc l) = sc (g_barycenter Rops l))) /\
+  (forall l, g_barycenter Rops (map sc l) = sc (g_barycenter Rops l)) /\
+  (forall A B C, 0 < n2 (cross (B -v A) (C -v A)) ->
+     g_circumcenter Rops (sc A) (sc B) (sc C) = omap sc (g_circumcenter Rops A B C))) /\
   (* every attribute of the scaled mesh *)
   (forall (s : R) (m : mesh R), 0 < s -> wf_mesh m -> let sc := scl s in let m' := map_mesh sc m in
   edge_length Rops m' = map (Rmult s) (edge_length Rops m) /\
@@ -165,6 +167,7 @@ Definition scaling_statement : Prop :=
   (* the first three vertices of every face are not collinear: unit normals, cotangents, vertex normals *)
   (faces_nondegenerate m ->
      face_normals Rops m' = face_normals Rops m /\
+     face_circumcenter Rops m' = map (omap sc) (face_circumcenter Rops m) /\
      ((forall F, In F (faces m) -> zlen F = 3%Z) -> cotangent Rops m' = cotangent Rops m /\ cotan_weights Rops m' = cotan_weights Rops m) /\
      (forall ang, vertex_normals Rops WUniform ang m' = vertex_normals Rops WUniform ang m /\
                   vertex_normals Rops WAngle ang m' = vertex_normals Rops WAngle ang m) /\
@@ -187,6 +190,7 @@ Proof.
     + apply mean_scale.
     + apply mean_scale.
     + apply mean_scale.
+    + now apply circumcenter_scale.
   - intros s m Hs WF sc m'. subst sc m'. repeat apply conj.
     + now apply edge_length_scale.
     + now apply edge_middle_point_scale.
@@ -204,7 +208,7 @@ Proof.
     + intros. now apply mean_cell_volume_scale.
     + now apply total_area_scale.
     + apply barycenter_mesh_scale.
-    + intros ND. split; [now apply face_normals_scale|]. split.
+    + intros ND. split; [now apply face_normals_scale|]. split; [now apply face_circumcenter_scale|]. split.
       * intros TRI. split; [now apply cotangent_scale|now apply cotan_weights_scale].
       * split.
         -- intros ang. split; apply vertex_normals_scale_uniform_angle; auto.
@@ -411,7 +415,7 @@ Qed.
 
 (* ====================================================================== circumcentre (code as repaired by 141685d) *)
 (* whenever face_circumcenter's formula returns a point for a non-degenerate triangle (it returns None only when
-   intersect_2lines2D's |det| < 1e-12 guard fires), that point is equidistant from the three vertices and lies in
+   intersect_2lines2D's relative parallelism guard det^2 <= 1e-24 |d1|^2 |d2|^2 fires), that point is equidistant from the three vertices and lies in
    the triangle's plane: it IS the circumcentre.  (Before the repair the Z*h term was missing and the in-plane
    clause failed for every triangle whose plane misses the origin.) *)
 Definition circumcenter_statement : Prop :=
@@ -429,10 +433,3 @@ Definition face_normal_rotation_refuted_statement : Prop :=
   exists A B C D : V3,
     0 < n2 (cross (B -v A) (C -v A)) /\ 0 < n2 (cross (C -v B) (D -v B)) /\
     g_face_normal Rops A B C <> g_face_normal Rops B C D.
-
-(* FULL statement (fails): every non-degenerate triangle gets its circumcentre,
-     forall A B C, 0 < |(B-A) x (C-A)|^2 -> exists c, g_circumcenter A B C = Some c
-   (which, with C07_circumcenter, would make face_circumcenter scale-equivariant).  intersect_2lines2D's ABSOLUTE guard
-   |det| < 1e-12 refutes it for a small well-shaped triangle (legs 1e-7): *)
-Definition circumcenter_guard_refuted_statement : Prop :=
-  exists A B C : V3, 0 < n2 (cross (B -v A) (C -v A)) /\ g_circumcenter Rops A B C = None.
